@@ -1,6 +1,10 @@
-/* mc_decode_more.h -- oracles layered on the H7 exploration: C02 (optimality), and later C04, C11, C12, C14 */
+/* mc_decode_more.h -- oracles layered on the H7 exploration: C02 (optimality), C04 (alignment),
+ * C14 (JSON), and through mc_decode_lattice.h C11/C12 (lattice, N-best). */
 #ifndef MC_DECODE_MORE_H
 #define MC_DECODE_MORE_H
+#include "strict_json.h"
+#include <malloc.h>
+#include <soundswallower/alignment.h>
 
 /* C02: with open beams the reported score equals the reference optimum; otherwise it never exceeds it.
  * The optimum ranges over alignments that consume all T frames and end in the final state. */
@@ -44,13 +48,330 @@ check_c02(const dc_result_t *R, const rv_result *V, int T, const char *cd, const
     return 0;
 }
 
+/* ---------- C04: alignment hierarchy ---------- */
+static int
+check_c04(const dc_result_t *R, int T, const char *cd, const char *when)
+{
+    alignment_t *al = decoder_alignment(D), *al2;
+    alignment_iter_t *w, *p, *s;
+    char rs[1500];
+    int wi = 0, next_frame = 0, i, last_ef = -1;
+    const char *early = "";
+    dc_result_str(R, rs, sizeof rs);
+    /* with pruning the first pass may fall back to a result that ends before the last frame searched */
+    for (i = 0; i < R->nseg; i++)
+        if (R->seg[i].ef > last_ef)
+            last_ef = R->seg[i].ef;
+    if (last_ef >= 0 && last_ef != T - 1)
+        early = ":result-ends-before-last-frame";
+    if (al == NULL) {
+        int nreal = 0;
+        for (i = 0; i < R->nseg; i++)
+            if (strcmp(R->seg[i].word, "(NULL)") != 0)
+                nreal++;
+        if (nreal > 0) {
+            char sig[96];
+            snprintf(sig, sizeof sig, "C04/no-alignment-for-a-result%s", early);
+            mc_viol(sig, cd, "%s: decoder_alignment returned NULL although the segmentation has %d words; %s", when, nreal, rs);
+            return -1;
+        }
+        al2 = decoder_alignment(D);
+        if (al2 != NULL) {
+            mc_viol("C04/second-call-differs", cd, "%s: decoder_alignment failed, then succeeded without new audio", when);
+            return -1;
+        }
+        return 0;
+    }
+    mc_count(4, 1);
+    /* words must be the dictionary words of the first-pass segmentation */
+    i = 0;
+    for (w = alignment_words(al); w; w = alignment_iter_next(w), wi++) {
+        int ws, wd, wscore = alignment_iter_seg(w, &ws, &wd), pscore_sum = 0, pi = 0, pnext = ws;
+        const char *wname = alignment_iter_name(w);
+        char *pron, *tok, *save = NULL, pronbuf[256];
+        while (i < R->nseg && strcmp(R->seg[i].word, "(NULL)") == 0)
+            i++;
+        if (i == R->nseg || strcmp(R->seg[i].word, wname) != 0 || R->seg[i].sf != ws || R->seg[i].ef - R->seg[i].sf + 1 != wd) {
+            char sig[96];
+            snprintf(sig, sizeof sig, "C04/words-differ-from-segmentation%s", early);
+            mc_viol(sig, cd, "%s: alignment word %d is %s %d+%d, first-pass segment %d is %s %d-%d; %s", when, wi,
+                    wname, ws, wd, i, i < R->nseg ? R->seg[i].word : "(none)", i < R->nseg ? R->seg[i].sf : -1, i < R->nseg ? R->seg[i].ef : -1, rs);
+            alignment_iter_free(w);
+            return -1;
+        }
+        i++;
+        if (ws != next_frame || wd <= 0) {
+            mc_viol("C04/words-not-contiguous", cd, "%s: word %d (%s) starts at %d with duration %d, expected start %d; %s", when, wi, wname, ws, wd,
+                    next_frame, rs);
+            alignment_iter_free(w);
+            return -1;
+        }
+        next_frame = ws + wd;
+        pron = decoder_lookup_word(D, wname);
+        snprintf(pronbuf, sizeof pronbuf, "%s", pron ? pron : "");
+        ckd_free(pron);
+        tok = strtok_r(pronbuf, " ", &save);
+        for (p = alignment_iter_children(w); p; p = alignment_iter_next(p), pi++) {
+            int ps, pd, pscore = alignment_iter_seg(p, &ps, &pd), sscore_sum = 0, si = 0, snext = ps, ci, tm;
+            const char *pname = alignment_iter_name(p);
+            if (!tok || strcmp(tok, pname) != 0) {
+                mc_viol("C04/phones-differ-from-pronunciation", cd, "%s: word %s phone %d is %s, dictionary says %s", when, wname, pi, pname,
+                        tok ? tok : "(end)");
+                alignment_iter_free(p);
+                alignment_iter_free(w);
+                return -1;
+            }
+            tok = strtok_r(NULL, " ", &save);
+            if (ps != pnext || pd <= 0) {
+                mc_viol("C04/phones-do-not-partition-word", cd, "%s: word %s phone %d (%s) starts at %d with duration %d, expected start %d; %s", when,
+                        wname, pi, pname, ps, pd, pnext, rs);
+                alignment_iter_free(p);
+                alignment_iter_free(w);
+                return -1;
+            }
+            pnext = ps + pd;
+            ci = bin_mdef_ciphone_id(D->acmod->mdef, pname);
+            tm = bin_mdef_pid2tmatid(D->acmod->mdef, ci);
+            for (s = alignment_iter_children(p); s; s = alignment_iter_next(s), si++) {
+                int ss, sd, sscore = alignment_iter_seg(s, &ss, &sd), expect = 0, t;
+                int senid = atoi(alignment_iter_name(s));
+                uint8 **tp = D->acmod->tmat->tp[tm];
+                if (ss != snext || sd <= 0) {
+                    mc_viol("C04/states-do-not-partition-phone", cd, "%s: word %s phone %s state %d starts at %d with duration %d, expected start %d; %s",
+                            when, wname, pname, si, ss, sd, snext, rs);
+                    alignment_iter_free(s);
+                    alignment_iter_free(p);
+                    alignment_iter_free(w);
+                    return -1;
+                }
+                snext = ss + sd;
+                if (senid != D->acmod->mdef->sseq[alignment_iter_get(p)->id.pid.ssid][si]) {
+                    mc_viol("C04/state-is-not-the-phones-emitting-state", cd, "%s: word %s phone %s state %d is senone %d", when, wname, pname, si, senid);
+                    alignment_iter_free(s);
+                    alignment_iter_free(p);
+                    alignment_iter_free(w);
+                    return -1;
+                }
+                /* independent recomputation: emissions over the state's frames, self-loops, and the transition out */
+                for (t = ss; t < ss + sd && t < T; t++)
+                    expect -= DC_SCORES[DC_FRAMESYM[t]][senid];
+                expect -= (sd - 1) * tp[si][si];
+                expect -= tp[si][si + 1];
+                if (DC_INJECT && sscore != expect) {
+                    mc_viol("C04/state-score-differs-from-recomputation", cd,
+                            "%s: word %s phone %s state %d (senone %d, frames %d+%d): score %d, emissions + transitions give %d; %s", when, wname,
+                            pname, si, senid, ss, sd, sscore, expect, rs);
+                    alignment_iter_free(s);
+                    alignment_iter_free(p);
+                    alignment_iter_free(w);
+                    return -1;
+                }
+                sscore_sum += sscore;
+            }
+            if (si != bin_mdef_n_emit_state(D->acmod->mdef) || snext != ps + pd) {
+                mc_viol("C04/states-do-not-partition-phone", cd, "%s: word %s phone %s has %d states covering up to frame %d, phone spans %d+%d", when,
+                        wname, pname, si, snext, ps, pd);
+                alignment_iter_free(p);
+                alignment_iter_free(w);
+                return -1;
+            }
+            if (pscore != sscore_sum) {
+                mc_viol("C04/parent-score-not-sum-of-children", cd, "%s: word %s phone %s score %d, its states sum to %d", when, wname, pname, pscore,
+                        sscore_sum);
+                alignment_iter_free(p);
+                alignment_iter_free(w);
+                return -1;
+            }
+            pscore_sum += pscore;
+        }
+        if (tok != NULL || pnext != ws + wd) {
+            mc_viol("C04/phones-do-not-partition-word", cd, "%s: word %s: phones end at frame %d, word spans %d+%d%s", when, wname, pnext, ws, wd,
+                    tok ? " (pronunciation has more phones)" : "");
+            alignment_iter_free(w);
+            return -1;
+        }
+        if (wscore != pscore_sum) {
+            mc_viol("C04/parent-score-not-sum-of-children", cd, "%s: word %s score %d, its phones sum to %d", when, wname, wscore, pscore_sum);
+            alignment_iter_free(w);
+            return -1;
+        }
+    }
+    while (i < R->nseg && strcmp(R->seg[i].word, "(NULL)") == 0)
+        i++;
+    if (i != R->nseg) {
+        mc_viol("C04/words-differ-from-segmentation", cd, "%s: alignment has %d words, the segmentation has more; %s", when, wi, rs);
+        return -1;
+    }
+    al2 = decoder_alignment(D);
+    if (al2 != al) {
+        mc_viol("C04/second-call-differs", cd, "%s: a second decoder_alignment call without new audio returned a different object", when);
+        return -1;
+    }
+    return 0;
+}
+
+/* ---------- C14: JSON ---------- */
+static int
+json_num_is(sj_node *n, double v, const char *what, const char *cd, const char *ctx)
+{
+    char expect[64];
+    snprintf(expect, sizeof expect, "%.3f", v);
+    if (!n || n->type != SJ_NUM || strcmp(n->str, expect) != 0) {
+        mc_viol("C14/field-differs-from-iterators", cd, "%s: field \"%s\" is %s, the interfaces give %s", ctx, what,
+                n ? (n->str ? n->str : "(not a number)") : "(missing)", expect);
+        return 0;
+    }
+    return 1;
+}
+
+static int
+json_str_is(sj_node *n, const char *v, const char *what, const char *cd, const char *ctx)
+{
+    if (!n || n->type != SJ_STR || strcmp(n->str, v) != 0) {
+        mc_viol("C14/field-differs-from-iterators", cd, "%s: field \"%s\" is \"%s\", the interfaces give \"%s\"", ctx, what,
+                n && n->str ? n->str : "(missing)", v);
+        return 0;
+    }
+    return 1;
+}
+
+static int
+json_align_level(sj_node *arr, alignment_iter_t *it, double start, int frate, int levels_below, const char *cd, const char *ctx)
+{
+    /* arr: JSON array; it: iterator over the corresponding alignment entries (consumed) */
+    sj_node *e = arr ? arr->child : NULL;
+    int k = 0;
+    if (!arr || arr->type != SJ_ARR) {
+        mc_viol("C14/field-differs-from-iterators", cd, "%s: \"w\" list missing", ctx);
+        if (it)
+            alignment_iter_free(it);
+        return 0;
+    }
+    for (; it; it = alignment_iter_next(it), e = e->next, k++) {
+        int s, d, score = alignment_iter_seg(it, &s, &d);
+        const char *name = alignment_iter_name(it);
+        char c2[200];
+        snprintf(c2, sizeof c2, "%s[%d]", ctx, k);
+        if (!e) {
+            mc_viol("C14/field-differs-from-iterators", cd, "%s: list has %d entries, the alignment has more", ctx, k);
+            alignment_iter_free(it);
+            return 0;
+        }
+        if (!json_str_is(sj_get(e, "t"), name ? name : "", "t", cd, c2) || !json_num_is(sj_get(e, "b"), start + (double)s / frate, "b", cd, c2)
+            || !json_num_is(sj_get(e, "d"), (double)d / frate, "d", cd, c2)
+            || !json_num_is(sj_get(e, "p"), logmath_exp(decoder_logmath(D), score), "p", cd, c2)) {
+            alignment_iter_free(it);
+            return 0;
+        }
+        if (levels_below > 0) {
+            if (!json_align_level(sj_get(e, "w"), alignment_iter_children(it), start, frate, levels_below - 1, cd, c2)) {
+                alignment_iter_free(it);
+                return 0;
+            }
+        } else if (sj_get(e, "w")) {
+            mc_viol("C14/field-differs-from-iterators", cd, "%s: unexpected nested list", c2);
+            alignment_iter_free(it);
+            return 0;
+        }
+    }
+    if (e) {
+        mc_viol("C14/field-differs-from-iterators", cd, "%s: list has more entries than the alignment (%d)", ctx, k);
+        return 0;
+    }
+    return 1;
+}
+
+static int
+check_c14(const dc_result_t *R, const char *cd, const char *when)
+{
+    static const double starts[2] = { 0.0, 1.5 };
+    int level, si, frate = (int)config_int(D->config, "frate"), i;
+    for (level = 0; level <= 2; level++)
+        for (si = 0; si < 2; si++) {
+            double start = starts[si];
+            const char *js = decoder_result_json(D, start, level), *tail;
+            char ctx[96], shown[400];
+            sj_node *root, *w, *e;
+            size_t len;
+            snprintf(ctx, sizeof ctx, "%s, level %d, start %.1f", when, level, start);
+            if (js == NULL) {
+                if (level == 0) {
+                    mc_viol("C14/no-json", cd, "%s: decoder_result_json returned NULL", ctx);
+                    return -1;
+                }
+                if (decoder_alignment(D) != NULL) {
+                    mc_viol("C14/no-json", cd, "%s: decoder_result_json returned NULL although an alignment exists", ctx);
+                    return -1;
+                }
+                continue;
+            }
+            mc_count(5, 1);
+            len = strlen(js);
+            snprintf(shown, sizeof shown, "%.380s", js);
+            root = sj_parse(js, &tail);
+            if (!root || root->type != SJ_OBJ) {
+                mc_viol("C14/invalid-json", cd, "%s: %s at offset %ld: %s", ctx, sj_err ? sj_err : "not an object", sj_errpos ? (long)(sj_errpos - js) : 0L,
+                        shown);
+                return -1;
+            }
+            if (strcmp(tail, "\n") != 0) {
+                mc_viol("C14/not-one-newline-terminated-object", cd, "%s: the object is followed by %zu bytes instead of one newline: %s", ctx, strlen(tail),
+                        shown);
+                return -1;
+            }
+#if defined(__SANITIZE_ADDRESS__)
+            if (malloc_usable_size((void *)js) != len + 1) {
+                mc_viol("C14/length-differs-from-allocation", cd, "%s: string needs %zu bytes, %zu were allocated", ctx, len + 1,
+                        malloc_usable_size((void *)js));
+                return -1;
+            }
+#endif
+            if (!json_str_is(sj_get(root, "t"), R->has_hyp ? R->hyp : "", "t", cd, ctx) || !json_num_is(sj_get(root, "b"), start, "b", cd, ctx)
+                || !json_num_is(sj_get(root, "d"), (double)decoder_n_frames(D) / frate, "d", cd, ctx))
+                return -1;
+            w = sj_get(root, "w");
+            if (!w || w->type != SJ_ARR) {
+                mc_viol("C14/field-differs-from-iterators", cd, "%s: no \"w\" list", ctx);
+                return -1;
+            }
+            if (level == 0) {
+                for (i = 0, e = w->child; i < R->nseg; i++, e = e->next) {
+                    char c2[128];
+                    snprintf(c2, sizeof c2, "%s, w[%d]", ctx, i);
+                    if (!e) {
+                        mc_viol("C14/field-differs-from-iterators", cd, "%s: %d entries, the segmentation has %d", ctx, i, R->nseg);
+                        return -1;
+                    }
+                    if (!json_str_is(sj_get(e, "t"), R->seg[i].word, "t", cd, c2)
+                        || !json_num_is(sj_get(e, "b"), start + (double)R->seg[i].sf / frate, "b", cd, c2)
+                        || !json_num_is(sj_get(e, "d"), (double)(R->seg[i].ef + 1 - R->seg[i].sf) / frate, "d", cd, c2)
+                        || !json_num_is(sj_get(e, "p"), logmath_exp(decoder_logmath(D), R->seg[i].prob), "p", cd, c2))
+                        return -1;
+                }
+                if (e) {
+                    mc_viol("C14/field-differs-from-iterators", cd, "%s: more entries than the segmentation's %d", ctx, R->nseg);
+                    return -1;
+                }
+            } else {
+                alignment_t *al = decoder_alignment(D);
+                if (!al || !json_align_level(w, alignment_words(al), start, frate, level, cd, ctx))
+                    return -1;
+            }
+        }
+    return 0;
+}
+
+#include "mc_decode_lattice.h"
+
 static int
 check_more(const gspec_t *g, const dc_result_t *R, int T, const char *cd)
 {
-    (void)g;
-    (void)R;
-    (void)T;
-    (void)cd;
+    if (P_C04 && check_c04(R, T, cd, "final result") < 0)
+        return -1;
+    if (P_C14 && check_c14(R, cd, "final result") < 0)
+        return -1;
+    if ((P_C11 || P_C12) && check_lattice(g, R, T, cd, "final result") < 0)
+        return -1;
     return 0;
 }
 #endif
